@@ -477,6 +477,30 @@ def handleBase (case obs : List String) : String × String :=
     else bad
   | _ => bad
 
+/-- `feat srv <snd> <acc> A <accept header> E <encoding header>`: a `server::Grpc` of a build of tonic in which only
+`gzip` and `zstd` are compiled in (side crate harness_c05gz; seed C05i: a name table that shifts when the compiled
+encodings are not a prefix of gzip, deflate, zstd).  `<snd>` is `-` or ONE letter, so the choice is unambiguous.
+Oracle (tie only, stated on the header texts): a request `grpc-encoding` is accepted iff it is absent, `identity`, or
+the NAME of an encoding enabled for accepting - else UNIMPLEMENTED; the response is compressed with the send encoding
+iff its NAME is among the comma-separated names the request's `grpc-accept-encoding` lists, announced under that
+name, with flag 1; otherwise nothing is announced and the flag is 0. -/
+def handleFeat (snd acc a e : String) (obs : List String) : String × String :=
+  let nameOf (c : Char) : Option String := if c = 'g' then some "gzip" else if c = 'z' then some "zstd" else none
+  let names (t : String) : List String := if t = "-" then [] else t.toList.filterMap nameOf
+  let offered : List String := if a = "-" then [] else (a.splitOn ",").map (fun x => (x.replace "_" " ").trimAscii.toString)
+  let reqEnc := (e.replace "_" " ").trimAscii.toString
+  let accepted := e = "-" || reqEnc = "identity" || (names acc).contains reqEnc
+  let expected :=
+    if !accepted then ["status:12", "enc:-", "flag:-"]
+    else
+      match names snd with
+      | [n] => if offered.contains n then ["status:0", "enc:" ++ n, "flag:1"] else ["status:0", "enc:-", "flag:0"]
+      | _ => ["status:0", "enc:-", "flag:0"]
+  (String.intercalate " " expected,
+   if obs = ["side-binary-missing"] then "fail:side-binary-missing" else
+   verdict [("unsupported-request-encoding-refused", accepted || obs.head? == some "status:12"),
+            ("server-choice-enabled-and-offered", !accepted || obs == expected)])
+
 /-- `x.<knobs> <inner case>` (harness/src/c05_x.rs): the inner case run with dimensions turned
 that must be INVISIBLE to the negotiation — message-size limits configured next to the
 compression settings, the codec's buffer settings, how the received body is cut into DATA frames,
@@ -487,6 +511,8 @@ calls, interceptor layers around generated code.  The model has no such paramete
 verdict are those of the inner case. -/
 def handle (case obs : List String) : String × String :=
   match case with
+  | ["feat", "srv", snd, acc, "A", a, "E", e] =>
+    if snd.length ≤ 1 then handleFeat snd acc a e obs else bad
   | k :: ts => if k.startsWith "x." then handleBase ts obs else handleBase case obs
   | _ => bad
 
